@@ -12,17 +12,20 @@ def run(ctx):
         "hand-written interleaving model of kvstore/batch_writer.go + batch_collector.go (Model.v): one step per atomic access / channel operation / callback, tied to the code by the correspondence check only",
         "Go memory model: sync/atomic operations, channel operations and sync.Mutex/Once/WaitGroup are sequentially consistent atomic steps",
         "the KVStore batch (Batched/Set/Commit/Cancel) is modelled as an atomic map update; BatchWriteObject implementations are the harness objects (flag = test-and-set, content read at BatchWrite)",
+        "store faults (FaultModel.v): a batch Commit / Batched() call that returns an error applies nothing to the store; the writer's panic(err) has no recover on its stack, so the Go runtime terminates the process: modelled as a terminal event (no thread steps afterwards)",
     ])
     if thorough:
         for k in range(5):
             ctx.seed += 1000
-            ctx.corr(hx, ["run", "--n", "600", "--free", "600"], cases_name="cases%d.v" % k)
+            ctx.corr(hx, ["run", "--n", "600", "--free", "600", "--fault", "400", "--child", "20", "--opts", "3"], cases_name="cases%d.v" % k)
         ctx.seed -= 5000
     else:
-        ctx.corr(hx, ["run", "--n", "250", "--free", "250"])
+        ctx.corr(hx, ["run", "--n", "250", "--free", "250", "--fault", "120", "--child", "8", "--opts", "1"])
     ctx.assumptions += [
         "batch size >= 1 (batch size 0 panics in BatchCollector.Add on the first object; outside the property)",
-        "one BatchedWriter life cycle (autoStartOnce: a stopped writer is never restarted); store errors (panics in the writer) are not modelled",
+        "one BatchedWriter life cycle (autoStartOnce: a stopped writer is never restarted)",
+        "store faults: C08_safety_faults is proved for every fault script (which Commit / Batched() call fails is a free choice; the failure is all-or-nothing: a store that applies part of a batch and then reports an error is not modelled; errors of BatchedMutations.Set inside an object's BatchWrite are the object's business). The harness injects 'the n-th batch Commit (n = 1..3) or the n-th Batched() (n = 1..4) call fails' into free-running cases; in-process the injected error parks the panicking writer goroutine inside error.Error() (called by runtime.preprintpanics), and a few sequential cases per run are executed in a child process that really dies (exit status and panic message checked)",
+        "batch timer: the model treats 'the time-out fires' as a free scheduler choice that is always enabled (C08_timeout_always_enabled) and is the only step of an idle writer (C08_idle_writer_only_timeout), so the theorems cover every timer behaviour. The correspondence ran these timer configurations: scripted 50ms (timer awaited explicitly), free/fault 0 and 1-3ms, option grid -1h, -1ns, 0, 1ns, 1us, 300us, 2ms, default 500ms (fires at once / early: completeness at StopBatchWriter judged under a 6s watchdog) and 1h (never fires within the run: only batch-size and Flush triggers, no Stop since the code releases Stop only through the timer). Options varied: WithBatchTimeout (those 9 values), WithBatchSize 1/2/4/not given (10000), WithQueueSize 0/1/2/not given (10000); not varied: batch size <= 0 and queue size < 0 (constructor / first Add panics: outside the property)",
         "no-blocking is proved in two forms for the repaired code: no reachable state with an unfinished call is stuck (C08_no_block / C08_progress) and every reachable state has a continuation of the schedule in which every call returns (C08_can_finish); that a fair scheduler actually takes such a continuation (termination under fairness, real timers) is not formalised (watchdogs in the harness observe it)",
         "completeness is proved at value level over the model (C08_complete, C08_complete_written, C08_complete_ordered, C08_enqueue_accepted_before_stop): the object's content is one value announced at the Enqueue invocation and read by the writer at BatchWrite; the Go oracle and Corr.free_ok check the same predicates on every run",
         "scripted schedules are replayed at the granularity of the harness gates (Enqueue hook, flag test, writer callbacks); finer interleavings are covered by the proof only",
